@@ -660,7 +660,9 @@ static std::vector<double> smooth_probes(TasmanianSparseGrid const &g, int n, un
             for(size_t i=0; i+1<c.size(); i++) cells.push_back({c[i + 1] - c[i], i});
             std::sort(cells.rbegin(), cells.rend());
             size_t pick = cells[gen() % std::min<size_t>(cells.size(), 4)].second;
-            double t = 0.3 + 0.4 * ((double) (gen() % 1000) / 1000.0);
+            // never a dyadic fraction of the cell: cubic wavelets are tabulated functions interpolated piece-wise, their table knots
+            // (dyadic points finer than the nodes) are kinks of the implemented surrogate, where it is not differentiable
+            double t = 0.3 + 0.4 * (((double) (gen() % 1000) + 0.372) / 1000.0);
             x.push_back(c[pick] + t * (c[pick + 1] - c[pick]));
         }
     }
@@ -725,7 +727,8 @@ static std::string obs_grad(TasmanianSparseGrid const &g, unsigned seed){
                 for(int k=0; k<6; k++){
                     std::vector<double> xi(xs.begin() + (size_t) k * d, xs.begin() + (size_t) (k + 1) * d), jac;
                     t.differentiate(xi, jac);
-                    for(int o=0; o<outs; o++) for(int j=0; j<d; j++) if (std::fabs(jac[(size_t) o * d + j] - (1.0 + 0.25 * j + 0.5 * o)) > 1.0e-8 * 10.0) ok = false;
+                    for(int o=0; o<outs; o++) for(int j=0; j<d; j++) if (std::fabs(jac[(size_t) o * d + j] - (1.0 + 0.25 * j + 0.5 * o)) > 1.0e-8 * 10.0){ ok = false;
+                        if (getenv("VERIF_DEBUG")) fprintf(stderr, "exact_affine: x=(%g,%g,%g) o=%d j=%d jac=%.15g expected=%.15g\n", xi[0], d > 1 ? xi[1] : 0.0, d > 2 ? xi[2] : 0.0, o, j, jac[(size_t) o * d + j], 1.0 + 0.25 * j + 0.5 * o); }
                 }
                 add("exact_affine", jbool(ok));
             }
